@@ -13,6 +13,8 @@ import ast
 import difflib
 import os
 
+from .srcmodel import dotted
+
 REFDIR = os.path.join(os.path.dirname(os.path.dirname(os.path.abspath(__file__))), 'spec', 'refsrc')
 
 
@@ -561,7 +563,9 @@ def splice_equivalent(rel, text):
                     exported |= {c.value for c in ast.walk(n.value) if isinstance(c, ast.Constant) and isinstance(c.value, str)}
             ol = new_text.split('\n')
             for n in t2.body:
-                if isinstance(n, ast.FunctionDef) and n.name in co and n.name not in loads and n.name not in exported:
+                # a function whose decorator registers it somewhere (numba.extending.overload(f), a dispatch table) is alive
+                registering = any(isinstance(d, ast.Call) and dotted(d.func).split('.')[-1] not in ('njit', 'jit') for d in n.decorator_list) if isinstance(n, ast.FunctionDef) else False
+                if isinstance(n, ast.FunctionDef) and n.name in co and n.name not in loads and n.name not in exported and not registering:
                     lo = min([n.lineno] + [d.lineno for d in n.decorator_list])
                     for k in range(lo - 1, n.end_lineno):
                         ol[k] = ''
